@@ -84,6 +84,8 @@ fn single_v(ctx: &mut Ctx, mask: Vec<i32>, sigpipe_mode: u64, tag: &str, from_th
     let mut what = String::new();
     let mut on_own_number: Option<(i32, i32)> = None; // (stream, saved copy of the parent's descriptor)
     let mut transient: Option<i32> = None;
+    let mut path_value: Option<std::ffi::OsString> = None;
+    let mut bare_name: Option<std::ffi::OsString> = None;
     if variant != 0 {
         let mk = |vr: &mut Rng, s: usize, dir: &std::path::Path| match vr.below(4) {
             0 => Redirection::None,
@@ -125,7 +127,40 @@ fn single_v(ctx: &mut Ctx, mask: Vec<i32>, sigpipe_mode: u64, tag: &str, from_th
             on_own_number = Some((s, keep));
             ctx.count("launches_with_a_stream_file_on_its_own_descriptor_number", 1);
         }
-        if vr.chance(350) {
+        if vr.chance(300) {
+            // the program is found through PATH, after entries in which something of that name exists but cannot be
+            // started (no execute permission, a directory, not an executable format): the attempts that fail leave no
+            // trace in the signal state of the program that is finally started
+            use std::os::unix::fs::PermissionsExt;
+            let name = exe.file_name().unwrap().to_owned();
+            let mut entries = vec![];
+            for (j, kind) in ["noexec", "directory", "garbage"].iter().enumerate() {
+                if vr.chance(600) {
+                    let d = dir.join(format!("path{}", j));
+                    let _ = std::fs::create_dir_all(&d);
+                    match *kind {
+                        "noexec" => {
+                            std::fs::write(d.join(&name), b"#!/bin/true\n").unwrap();
+                            std::fs::set_permissions(d.join(&name), std::fs::Permissions::from_mode(0o644)).unwrap();
+                        }
+                        "directory" => {
+                            let _ = std::fs::create_dir_all(d.join(&name));
+                        }
+                        _ => {
+                            std::fs::write(d.join(&name), b"\x00\x01 not an executable").unwrap();
+                            std::fs::set_permissions(d.join(&name), std::fs::Permissions::from_mode(0o755)).unwrap();
+                        }
+                    }
+                    entries.push(d);
+                }
+            }
+            entries.push(dir.clone());
+            path_value = Some(std::env::join_paths(entries).unwrap());
+            bare_name = Some(name);
+            what.push_str(" found-through-PATH-after-unstartable-candidates");
+            ctx.count("launches_found_through_PATH_after_unstartable_candidates", 1);
+        }
+        if path_value.is_none() && vr.chance(350) {
             let e = *vr.pick(&[libc::ETXTBSY, libc::EAGAIN, libc::EINTR, libc::ENOMEM]);
             transient = Some(e);
             what.push_str(&format!(" first-exec-attempt-fails-with-{}", spawn::errno_name(e)));
@@ -137,10 +172,14 @@ fn single_v(ctx: &mut Ctx, mask: Vec<i32>, sigpipe_mode: u64, tag: &str, from_th
     struct Movable(PopenConfig);
     unsafe impl Send for Movable {}
     let config = Movable(config);
+    let old_path = std::env::var_os("PATH");
+    if let Some(p) = &path_value {
+        std::env::set_var("PATH", p);
+    }
     let body = move || {
         let config = config;
         let config = config.0;
-        let argv = vec![exe2.clone().into_os_string()];
+        let argv = vec![bare_name.clone().unwrap_or_else(|| exe2.clone().into_os_string())];
         unsafe {
             let oldp = set_sigpipe(sigpipe_mode);
             let old = set_mask(&mask2);
@@ -154,6 +193,12 @@ fn single_v(ctx: &mut Ctx, mask: Vec<i32>, sigpipe_mode: u64, tag: &str, from_th
         }
     };
     let m = if from_thread { std::thread::scope(|s| s.spawn(body).join().unwrap()) } else { body() };
+    if path_value.is_some() {
+        match old_path {
+            Some(p) => std::env::set_var("PATH", p),
+            None => std::env::remove_var("PATH"),
+        }
+    }
     if let Some((s, keep)) = on_own_number {
         let _g = crate::inspect::proc_guard();
         unsafe {
